@@ -578,6 +578,18 @@ func c16Run(r *hx.Run, bin string, seq *c16Seq, rnd *rand.Rand) {
 			time.Sleep(time.Millisecond)
 		}
 	}()
+	// requests on the server whose configuration changes, too: they are not judged (the server is being
+	// reconfigured), but they land inside every reload's windows
+	for g := 0; g < 3; g++ {
+		twg.Add(1)
+		go func(g int) {
+			defer twg.Done()
+			cl := hx.NewClient(nil)
+			for i := 0; !stop.Load(); i++ {
+				cl.Do(hx.Req{Addr: srvAddr(L.ports["S1"]), Host: "hh.example", URI: fmt.Sprintf("/p%d/busy?size=300&n=%d&g=%d", i%2, i%5, g), Timeout: 5 * time.Second})
+			}
+		}(g)
+	}
 	removed := map[string]bool{}
 	kaS2, kaS2Used := hx.NewClient(nil), false
 	pad := 0
@@ -705,6 +717,27 @@ func c16Run(r *hx.Run, bin string, seq *c16Seq, rnd *rand.Rand) {
 				logical.Servers = logical.Servers[:len(logical.Servers)-1]
 				logical.Caches = logical.Caches[:len(logical.Caches)-1]
 				return "remove S3 and its cache cs2 (cs1 keeps using the same store)"
+			},
+		}
+	case "server_readd_then_later_update":
+		script = []func() string{
+			func() string {
+				logical.Servers = append(logical.Servers, config.ServerConfig{Addr: "S2", Locations: []string{"l0"}, Cache: "c0"})
+				return "srv_add S2"
+			},
+			func() string {
+				logical.Servers = logical.Servers[:len(logical.Servers)-1]
+				return "srv_remove S2 (not counted)"
+			},
+			func() string {
+				logical.Servers = append(logical.Servers, config.ServerConfig{Addr: "S2", Locations: []string{"l0"}, Cache: "c0"})
+				return "srv_readd S2 (inside the graceful close of the old listener: the known finding)"
+			},
+			func() string {
+				// the old listener has been closed for a while now; any later update starts the server
+				time.Sleep(11500 * time.Millisecond)
+				logical.Locations[1].RespHeaders = append(logical.Locations[1].RespHeaders, "X-Later:1")
+				return "unrelated update 11.5 s later: the re-added server must be listening afterwards"
 			},
 		}
 	case "server_remove_then_readd":
@@ -967,7 +1000,7 @@ func c16Run(r *hx.Run, bin string, seq *c16Seq, rnd *rand.Rand) {
 }
 
 func c16(r *hx.Run) {
-	r.Rule = "two real pike processes per sequence. The live one starts on a base configuration (2 caches, 2 upstreams, 2 locations, 2 servers, 1 compress profile) and receives 2-6 random valid updates (32 mutation kinds: set/unset min length, filter, compress profile, cache, location list; add/remove server, location, upstream, compress profile; set/unset rewrites, added headers, added query, upstream Accept-Encoding, upstream enableH2C, upstream server list; override/remove bestCompression) through the admin PUT /config or a single in-place write of the file, each completion observed through the update.done hook, under continuous traffic on an unchanged server; the fresh one is started on the final configuration. A probe suite derived from the final configuration (servers x 4 prefixes x sizes around the effective threshold x 3 content types x cacheable or not x Accept-Encoding, each twice) is run against both and compared field by field (status, label, encoding, encoded and decoded bytes, headers, which origin saw which path/query/headers), plus cache binding between servers, the retained hit of a key cached before the updates, and (one sequence) that a removed server stops listening. Twelve directed sequences add: a rewrite rule whose replacement changes while its pattern stays, enableH2C of an upstream set, unset and set again, the last compress profile (an override of bestCompression) removed so that the whole section disappears from the saved file, bestCompression overridden then removed, a server removed and re-added, cache switch/rename, a level set then unset, two servers removed at once, a cache sharing a store removed, restart-only cache settings changed, and a configuration saved while the previous one (with an upstream whose health endpoint is slow) is still being applied. Non-trivial/distinct = step sequence."
+	r.Rule = "two real pike processes per sequence. The live one starts on a base configuration (2 caches, 2 upstreams, 2 locations, 2 servers, 1 compress profile) and receives 2-6 random valid updates (32 mutation kinds: set/unset min length, filter, compress profile, cache, location list; add/remove server, location, upstream, compress profile; set/unset rewrites, added headers, added query, upstream Accept-Encoding, upstream enableH2C, upstream server list; override/remove bestCompression) through the admin PUT /config or a single in-place write of the file, each completion observed through the update.done hook, under continuous traffic on an unchanged server; the fresh one is started on the final configuration. A probe suite derived from the final configuration (servers x 4 prefixes x sizes around the effective threshold x 3 content types x cacheable or not x Accept-Encoding, each twice) is run against both and compared field by field (status, label, encoding, encoded and decoded bytes, headers, which origin saw which path/query/headers), plus cache binding between servers, the retained hit of a key cached before the updates, and (one sequence) that a removed server stops listening. Thirteen directed sequences add: a server re-added inside the graceful close of its old listener and an unrelated update 11.5 s later (it must be listening then), a rewrite rule whose replacement changes while its pattern stays, enableH2C of an upstream set, unset and set again, the last compress profile (an override of bestCompression) removed so that the whole section disappears from the saved file, bestCompression overridden then removed, a server removed and re-added, cache switch/rename, a level set then unset, two servers removed at once, a cache sharing a store removed, restart-only cache settings changed, and a configuration saved while the previous one (with an upstream whose health endpoint is slow) is still being applied. Non-trivial/distinct = step sequence."
 	r.Assume = []string{"restart-only settings (cache size/hit-for-pass/store, server log format, admin) are never changed", "gzip/brotli are deterministic, so equal levels give equal bytes", "addresses differ between the two processes and are not compared"}
 	bin, err := hx.BuildPike(r.Scratch)
 	if err != nil {
@@ -979,7 +1012,7 @@ func c16(r *hx.Run) {
 	n := r.Pick(8, 400)
 	sem := make(chan struct{}, 8)
 	var wg sync.WaitGroup
-	for i := 0; i < n+12 && !r.TooMany(); i++ {
+	for i := 0; i < n+13 && !r.TooMany(); i++ {
 		seq := &c16Seq{ID: i, CheckRemovedListener: i%8 == 0}
 		if i == n {
 			seq.Directed = "best_override_then_remove"
@@ -1016,6 +1049,9 @@ func c16(r *hx.Run) {
 		}
 		if i == n+11 {
 			seq.Directed = "rewrite_replacement_changed"
+		}
+		if i == n+12 {
+			seq.Directed = "server_readd_then_later_update"
 		}
 		seed := rnd.Int63()
 		wg.Add(1)
